@@ -1710,8 +1710,11 @@ func ruleRoOrder(c *Ctx) []Obligation {
 			return
 		}
 		if u, oku := r.Results[0].(*ssa.UnOp); oku && u.Op == token.NOT {
-			if call, okcall := u.X.(*ssa.Call); okcall && call.Call.StaticCallee() != nil && call.Call.StaticCallee().Name() == "Value" {
-				explicit = true
+			if call, okcall := u.X.(*ssa.Call); okcall && call.Call.StaticCallee() != nil && call.Call.StaticCallee().Name() == "Value" && len(call.Call.Args) > 0 {
+				// it is the entry's own config that decides, not a sibling tristate (mandatory)
+				if _, f, base := loadedField(call.Call.Args[0]); f == fConfig && (isParamN(ro, base, 0) || isParamN(ro, resolveArg(rootOf(base)), 0)) {
+					explicit = true
+				}
 			}
 		}
 	})
